@@ -524,12 +524,14 @@ CheckMacro(i) ==
 
 \* ---- C08: structural edits through the API, the printed text after every step ----
 FixEditOp(o) == [op |-> o.op, path |-> o.path, key |-> o.key, v |-> o.v, i |-> o.i]
-RECURSIVE EditSteps(_, _, _, _)
+RECURSIVE EditSteps(_, _, _, _, _)
 \* prev = text before step j; returns TRUE when every remaining step conforms
-EditSteps(i, steps, j, prev) ==
+\* loose0 = an earlier step created a table through the API (it has no position: sections may move as wholes)
+EditSteps(i, steps, j, prev, loose0) ==
   IF j > Len(steps) THEN TRUE
   ELSE LET st == steps[j]
            o == FixEditOp(st)
+           loose == loose0 \/ (o.op = "insert" /\ o.v.k = "t") \/ o.op \in {"to_table", "aot_push"}
        IN IF st.res = "skip" THEN TRUE          \* the API has no such operation at this position (e.g. push on a table)
           ELSE IF st.res # "ok" THEN Report(i, "edit-panic", [step |-> j, op |-> o.op]) /\ FALSE
           ELSE LET pp == ParseDocument(prev)
@@ -539,8 +541,12 @@ EditSteps(i, steps, j, prev) ==
                   ELSE IF pn.res # "ok" THEN Report(i, "edit-invalid", [step |-> j, op |-> o.op, text |-> st.text, why |-> pn.why, at |-> pn.at]) /\ FALSE
                   ELSE LET before == Plain(pp.tree)
                            after == Plain(pn.tree)
-                           pieces == Pieces(prev, pp, o)
-                           miss == FirstMissing(st.text, pieces, 1, 1, o.op # "sort_values")
+                           groups == PieceGroups(prev, pp, o)
+                           pieces == FlattenG(groups)
+                           missG == IF loose /\ o.op # "sort_values" THEN FirstMissingG(st.text, groups, 1) ELSE <<0, 0>>
+                           missF == IF loose /\ o.op # "sort_values" THEN 0 ELSE FirstMissing(st.text, pieces, 1, 1, o.op # "sort_values")
+                           lost == IF missG[1] # 0 THEN groups[missG[1]][missG[2]] ELSE IF missF # 0 THEN pieces[missF] ELSE <<>>
+                           miss == IF missG[1] # 0 \/ missF # 0 THEN 1 ELSE 0
                        IN /\ AllTrue({
                                IF SameContent(ApplyOp(before, o), after) THEN TRUE
                                \* known finding F20: a dotted-key table that loses its last key vanishes from the printed document
@@ -549,15 +555,15 @@ EditSteps(i, steps, j, prev) ==
                                     THEN Report(i, "edit-content-emptied-table-vanishes", [step |-> j, op |-> o.op, path |-> o.path, key |-> o.key]) /\ FALSE
                                ELSE Report(i, "edit-content", [step |-> j, op |-> o.op, path |-> o.path, key |-> o.key, text |-> st.text]) /\ FALSE,
                                \* a replaced key whose value changes between table and value has to move (values precede tables)
-                               IF o.op = "sort_values" \/ SurvivorsOrdered(before, after)
-                                  \/ ((o.op \in {"to_inline", "to_table"} \/ (o.op = "insert" /\ GetAt(before, Append(o.path, o.key)).k \in {"t", "a"}))
-                                      /\ SurvivorsOrdered(ApplyOp(before, [o EXCEPT !.op = "remove"]), ApplyOp(after, [o EXCEPT !.op = "remove"])))
+                               IF (IF o.op = "sort_values" THEN SortOrd(pp.tree, pn.tree, o.path, "to", loose) ELSE SurvivorsOrderedL(pp.tree, pn.tree, loose))
+                                  \/ ((o.op \in {"to_inline", "to_table"} \/ (o.op = "insert" /\ (o.v.k = "t" \/ GetAt(before, Append(o.path, o.key)).k \in {"t", "a"})))
+                                      /\ SurvivorsOrderedL(ApplyOp(pp.tree, [o EXCEPT !.op = "remove"]), ApplyOp(pn.tree, [o EXCEPT !.op = "remove"]), loose))
                                THEN TRUE
                                ELSE Report(i, "edit-order", [step |-> j, op |-> o.op, path |-> o.path, key |-> o.key, text |-> st.text]) /\ FALSE,
                                IF miss = 0 THEN TRUE
-                               ELSE Report(i, "edit-verbatim", [step |-> j, op |-> o.op, path |-> o.path, key |-> o.key, lost |-> pieces[miss], text |-> st.text]) /\ FALSE})
-                          /\ EditSteps(i, steps, j + 1, st.text)
-CheckEdit(i) == EditSteps(i, Ev[i].steps, 1, Ev[i].start)
+                               ELSE Report(i, "edit-verbatim", [step |-> j, op |-> o.op, path |-> o.path, key |-> o.key, lost |-> lost, text |-> st.text]) /\ FALSE})
+                          /\ EditSteps(i, steps, j + 1, st.text, loose)
+CheckEdit(i) == EditSteps(i, Ev[i].steps, 1, Ev[i].start, FALSE)
 
 \* ---- C18: feature configurations change performance or ordering only ----
 \* ORDER: preserve_order makes toml::Table iterate and print in insertion order; LIMIT: unbounded lifts the recursion limit
